@@ -22,6 +22,14 @@ func (r *runner) runOpMore(p *flags.Parser, op *OpSpec, or *OpResult) {
 		or.Err = "nil"
 		or.Ret = "nil"
 		or.Bytes = hexs(b.String())
+	case "help":
+		var b bytes.Buffer
+		p.WriteHelp(&b)
+		or.Err, or.Ret, or.Bytes = "nil", "nil", hexs(b.String())
+	case "man":
+		var b bytes.Buffer
+		p.WriteManPage(&b)
+		or.Err, or.Ret, or.Bytes = "nil", "nil", hexs(b.String())
 	default:
 		or.Err = "UNKNOWN-OP"
 	}
